@@ -62,6 +62,14 @@ Fixpoint ends_with_quote (s : str) : bool :=
   | _ :: r => ends_with_quote r
   end.
 
+(* the line ends with a double quote or a backslash (fixes/C12-07, /repo 6320d32) *)
+Fixpoint ends_with_qb (s : str) : bool :=
+  match s with
+  | [] => false
+  | [c] => (c =? 34)%N || (c =? 92)%N
+  | _ :: r => ends_with_qb r
+  end.
+
 Fixpoint repeat_str (n : nat) (s : str) : str :=
   match n with O => [] | S n' => s ++ repeat_str n' s end.
 
@@ -342,7 +350,7 @@ Section Printer.
     let max_len := 120 - length indent in
     let lines := wrapped_lines (split_nl desc) max_len in
     let first := match lines with l :: _ => l | [] => [] end in
-    if Nat.eqb (length lines) 1 && Nat.ltb (length first) 70 && negb (ends_with_quote first)
+    if Nat.eqb (length lines) 1 && Nat.ltb (length first) 70 && negb (ends_with_qb first)
     then escape_triple first
     else
       let hlw := match first with c :: _ => py_space c | [] => false end in
